@@ -11,7 +11,7 @@
 (* Lines (NDJSON):                                                         *)
 (*  {"ev":"Reset"}                               a new behaviour           *)
 (*  {"ev":"CSend",id,c,k,hdr,dst,sz,wire,la,t}   a client sent a datagram  *)
-(*  {"ev":"SSend",id,src,a,sz,nw,fits,t}         a socket sent to assoc a  *)
+(*  {"ev":"SSend",id,src,a,sz,rd,nw,fits,t}         a socket sent to assoc a  *)
 (*  {"ev":"TRecv",did,a,sock,dst,sz,p,ts,t}      a target received         *)
 (*  {"ev":"CRecv",sid,a,c,key,salt,hdr,sz,p,wire,t}  a client received     *)
 (*  {"ev":"M",m,a,c,key,st,x,y,did,t}            metrics call              *)
@@ -75,6 +75,7 @@ FirstBad ==
   ELSE IF "PktTSound" \in Props /\ ~PktTSound' THEN "PktTSound"
   ELSE IF "PktCPerDatagram" \in Props /\ ~PktCPerDatagram' THEN "PktCPerDatagram"
   ELSE IF "PktTPerReply" \in Props /\ ~PktTPerReply' THEN "PktTPerReply"
+  ELSE IF "PktTSize" \in Props /\ ~PktTSize' THEN "PktTSize"
   ELSE IF "RemoveOnce" \in Props /\ ~RemoveOnce' THEN "RemoveOnce"
   ELSE IF "NoEarlyRemoval" \in Props /\ ~NoEarlyRemoval' THEN "NoEarlyRemoval"
   ELSE IF "ReclaimedInTime" \in Props /\ ~ReclaimedInTime' THEN "ReclaimedInTime"
@@ -99,7 +100,7 @@ TrCSend == /\ Ev("CSend")
            /\ UNCHANGED <<sentS, outT, outC, mlogH, mlogG, conn, now, closing>> /\ Keep
 
 TrSSend == /\ Ev("SSend")
-           /\ sentS' = Append(sentS, [id |-> L.id, src |-> L.src, a |-> L.a, sz |-> L.sz, nw |-> L.nw, t |-> L.t, fits |-> L.fits])
+           /\ sentS' = Append(sentS, [id |-> L.id, src |-> L.src, a |-> L.a, sz |-> L.sz, nw |-> L.nw, t |-> L.t, rd |-> L.rd, fits |-> L.fits])
            /\ UNCHANGED <<sentC, outT, outC, mlogH, mlogG, conn, now, closing>> /\ Keep
 
 TrTRecv == /\ Ev("TRecv")
